@@ -317,10 +317,24 @@ func unmarshalAsCountersignature(value cbor.RawMessage) (any, error) {
 	}
 	var result2 []*Countersignature
 	err = decMode.Unmarshal(value, &result2)
-	if err == nil {
+	if err == nil && validCountersignatureList(result2) {
 		return result2, nil
 	}
 	return nil, errors.New("invalid Countersignature object / list of objects")
+}
+
+// validCountersignatureList reports whether list holds at least one
+// countersignature and no nil entries.
+func validCountersignatureList(list []*Countersignature) bool {
+	if len(list) == 0 {
+		return false
+	}
+	for _, sig := range list {
+		if sig == nil {
+			return false
+		}
+	}
+	return true
 }
 
 // unmarshalAsAny produces simple types.
@@ -621,10 +635,12 @@ func validateHeaderParameters(h map[any]any, protected bool) error {
 			if protected {
 				return errors.New("header parameter: counter signature: not allowed")
 			}
-			if _, ok := value.(*Countersignature); !ok {
-				if _, ok := value.([]*Countersignature); !ok {
+			if sig, ok := value.(*Countersignature); !ok {
+				if list, ok := value.([]*Countersignature); !ok || !validCountersignatureList(list) {
 					return errors.New("header parameter: counter signature is not a Countersignature or a list")
 				}
+			} else if sig == nil {
+				return errors.New("header parameter: counter signature is not a Countersignature or a list")
 			}
 		case HeaderLabelCounterSignature0:
 			if protected {
@@ -637,10 +653,12 @@ func validateHeaderParameters(h map[any]any, protected bool) error {
 			if protected {
 				return errors.New("header parameter: Countersignature version 2: not allowed")
 			}
-			if _, ok := value.(*Countersignature); !ok {
-				if _, ok := value.([]*Countersignature); !ok {
+			if sig, ok := value.(*Countersignature); !ok {
+				if list, ok := value.([]*Countersignature); !ok || !validCountersignatureList(list) {
 					return errors.New("header parameter: Countersignature version 2 is not a Countersignature or a list")
 				}
+			} else if sig == nil {
+				return errors.New("header parameter: Countersignature version 2 is not a Countersignature or a list")
 			}
 		case HeaderLabelCounterSignature0V2:
 			if protected {
